@@ -111,8 +111,11 @@ Proof.
   intros r H. unfold value_ok in H. cbv zeta in H.
   apply andb_prop in H. destruct H as [H H4]. apply andb_prop in H. destruct H as [H H3].
   apply andb_prop in H. destruct H as [H1 H2].
-  apply Z.ltb_lt in H1. apply Z.ltb_lt in H2. apply negb_true_iff in H3. apply Z.eqb_neq in H3. apply Z.leb_le in H4.
-  unfold value_agrees. repeat split; assumption.
+  apply Z.ltb_lt in H1. apply Z.ltb_lt in H2. apply negb_true_iff in H3. apply Z.eqb_neq in H3.
+  unfold value_agrees. split; [exact H1|]. split; [exact H2|]. split; [exact H3|].
+  destruct ((v_scale_num r =? 1) && (v_scale_den r =? 1)).
+  - apply Z.eqb_eq. exact H4.
+  - apply Z.leb_le. exact H4.
 Qed.
 
 Lemma values_forall : forall rows, forallb value_ok rows = true -> forall r, In r rows -> value_agrees r.
